@@ -1,6 +1,7 @@
 SPECIFICATION TSpec
 CONSTANTS
   Anys = {1, 2, 3, 4, 5}
-  Types = {"Small", "Big", "STM", "NC", "Int", "Str", "CStr", "Fn", "Sp", "Ov", "Nest"}
+  Types = {"Small", "Big", "STM", "NC", "Int", "Str", "CStr", "Fn", "Sp", "Ov", "Nest", "Ov32", "Ov64", "P16", "P17", "Var", "Fs", "Opt"}
+  Strict = FALSE
 POSTCONDITION TraceAccepted
 CHECK_DEADLOCK FALSE
